@@ -517,3 +517,31 @@ Definition load_file {A} (gunzip : bytes -> gz_outcome) (validate : bytes -> js_
 (* the session the core starts with: the restored one, or the defaults *)
 Definition session_of {A} (default : A) (r : res exn (option A)) : A :=
   match r with Ok (Some a) => a | _ => default end.
+
+(* ------------------------------------------------------------------ save() with rename (C19)
+   replace(orig) followed by rename orig -> newp *)
+Definition save_rename_ops (f : Z) (tmp orig newp : path) (chunks : list bytes)
+           (mid tail tail2 : list kop) : list kop :=
+  kprotocol f tmp orig chunks mid tail ++ KRename orig newp :: tail2.
+
+(* the three states a reader may find: nothing happened yet / new content under the old
+   name / new content under the new name (the old name is gone) *)
+Definition save_rename_good (s0 : kstate) (orig newp : path) (new : bytes) (s : kstate) : Prop :=
+  (read s orig = read s0 orig /\ read s newp = read s0 newp) \/
+  (read s orig = Some new /\ read s newp = read s0 newp) \/
+  (read s orig = None /\ read s newp = Some new).
+
+(* boolean version, evaluated on real traces *)
+Definition save_rename_ok_b (s0 s : kstate) (orig newp : path) (new : bytes) : bool :=
+  (obytes_eqb (read s orig) (read s0 orig) && obytes_eqb (read s newp) (read s0 newp)) ||
+  (obytes_eqb (read s orig) (Some new) && obytes_eqb (read s newp) (read s0 newp)) ||
+  (obytes_eqb (read s orig) None && obytes_eqb (read s newp) (Some new)).
+
+Fixpoint save_rename_first_bad (s0 s : kstate) (ops : list kop) orig newp new (k : Z) : option Z :=
+  if save_rename_ok_b s0 s orig newp new then
+    match ops with
+    | [] => None
+    | o :: t => save_rename_first_bad s0 (kstep s o) t orig newp new (k + 1)
+    end
+  else Some k.
+
